@@ -2187,7 +2187,15 @@ lyd_dup_r(const struct lyd_node *node, const struct ly_ctx *trg_ctx, struct lyd_
     } else if (dup->schema->nodetype & LYD_NODE_ANY) {
         dup->hash = node->hash;
         any = (struct lyd_node_any *)node;
-        LY_CHECK_GOTO(ret = lyd_any_copy_value(dup, &any->value, any->value_type), error);
+        if ((trg_ctx != LYD_CTX(node)) && (any->value_type == LYD_ANYDATA_DATATREE) && any->value.tree) {
+            /* the data tree value must also be duplicated into the target context */
+            ((struct lyd_node_any *)dup)->value_type = LYD_ANYDATA_DATATREE;
+            ret = lyd_dup_siblings_to_ctx(any->value.tree, trg_ctx, NULL, LYD_DUP_RECURSIVE,
+                    &((struct lyd_node_any *)dup)->value.tree);
+            LY_CHECK_GOTO(ret, error);
+        } else {
+            LY_CHECK_GOTO(ret = lyd_any_copy_value(dup, &any->value, any->value_type), error);
+        }
     }
 
     /* insert */
